@@ -271,7 +271,7 @@ class _Worker(threading.Thread):
 
     def call(self, fn):
         self.inq.put(fn)
-        kind, v = self.outq.get(timeout=15)
+        kind, v = self.outq.get(timeout=15 * TIMEOUT_SCALE[0])
         if kind == 'exc':
             raise v
         return v
@@ -467,6 +467,9 @@ class Hang(Exception):
     pass
 
 
+TIMEOUT_SCALE = [1]     # wall-clock limits below are multiplied by this (a retry after a time-out runs with generous limits)
+
+
 _ACTIVE = [None]       # the scheduler whose threads are running (one at a time per process)
 
 
@@ -536,7 +539,7 @@ class Scheduler:
                         if nxt is not None and nxt != me:
                             self.cur = nxt
                             self.sems[nxt].release()
-                            if not self.sems[me].acquire(timeout=20):
+                            if not self.sems[me].acquire(timeout=20 * TIMEOUT_SCALE[0]):
                                 self.hang = True
                                 raise Hang()
             return local
@@ -554,12 +557,12 @@ class Scheduler:
         if nxt is not None and nxt != me:
             self.cur = nxt
             self.sems[nxt].release()
-            if not self.sems[me].acquire(timeout=20):
+            if not self.sems[me].acquire(timeout=20 * TIMEOUT_SCALE[0]):
                 self.hang = True
                 raise Hang()
 
     def _thread(self, me):
-        if not self.sems[me].acquire(timeout=30):
+        if not self.sems[me].acquire(timeout=30 * TIMEOUT_SCALE[0]):
             self.hang = True
             self.finished.release()
             return
@@ -584,7 +587,7 @@ class Scheduler:
             th.start()
         self.sems[self.cur].release()
         for _ in range(self.n):
-            if not self.finished.acquire(timeout=40):
+            if not self.finished.acquire(timeout=40 * TIMEOUT_SCALE[0]):
                 self.hang = True
                 break
         if self.hang:
@@ -1833,6 +1836,7 @@ def baseline_server_main():
             try:
                 os.close(r)
                 req = json.loads(line)
+                TIMEOUT_SCALE[0] = req.get('scale', 1)
                 try:
                     cov_begin()
                     if req['op'] == 'solo':
@@ -1852,36 +1856,58 @@ def baseline_server_main():
         with os.fdopen(r) as f:
             data = f.read()
         os.waitpid(pid, 0)
-        sys.stdout.write((data or 'null') + '\n')
+        try:
+            rid = json.loads(line).get('rid')
+        except Exception:  # noqa
+            rid = None
+        sys.stdout.write('{"rid": %s, "answer": %s}\n' % (json.dumps(rid), data or 'null'))
         sys.stdout.flush()
 
 
 class _Baseline:
     proc = None
 
+    lock = threading.RLock()
+    seq = [0]
+
     @classmethod
     def ask(cls, req):
+        """one request, one answer.  Requests are numbered and serialised: if a caller is abandoned while it waits (the
+        per-case alarm of check.py gives up on a thread but cannot stop it), its late answer is never taken for the
+        answer to somebody else's request."""
         import subprocess
         import ombott
-        if cls.proc is None or cls.proc.poll() is not None:
-            repo = os.path.dirname(os.path.dirname(os.path.abspath(ombott.__file__)))
-            tools = os.path.dirname(os.path.dirname(os.path.abspath(__file__)))
-            code = ('import sys; sys.path[:0] = [%r, %r]; sys.dont_write_bytecode = True; '
-                    'from props import sched; sched.baseline_server_main()' % (tools, repo))
-            cls.proc = subprocess.Popen([sys.executable, '-c', code], stdin=subprocess.PIPE, stdout=subprocess.PIPE,
-                                        text=True, bufsize=1)
-        try:
-            cls.proc.stdin.write(json.dumps(req) + '\n')
-            cls.proc.stdin.flush()
-            line = cls.proc.stdout.readline()
-        except BaseException:
-            # (a timeout of the caller, a broken pipe) the answer may still arrive later: start over
-            cls.proc.kill()
-            cls.proc = None
-            raise
-        res = json.loads(line) if line.strip() else None
-        if res is None:
-            raise RuntimeError('the forked runner gave no answer')
+        with cls.lock:
+            if cls.proc is None or cls.proc.poll() is not None:
+                repo = os.path.dirname(os.path.dirname(os.path.abspath(ombott.__file__)))
+                tools = os.path.dirname(os.path.dirname(os.path.abspath(__file__)))
+                code = ('import sys; sys.path[:0] = [%r, %r]; sys.dont_write_bytecode = True; '
+                        'from props import sched; sched.baseline_server_main()' % (tools, repo))
+                cls.proc = subprocess.Popen([sys.executable, '-c', code], stdin=subprocess.PIPE, stdout=subprocess.PIPE,
+                                            text=True, bufsize=1)
+            cls.seq[0] += 1
+            rid = cls.seq[0]
+            req = dict(req, rid=rid, scale=TIMEOUT_SCALE[0])
+            try:
+                cls.proc.stdin.write(json.dumps(req) + '\n')
+                cls.proc.stdin.flush()
+                while True:
+                    line = cls.proc.stdout.readline()
+                    res = json.loads(line) if line.strip() else None
+                    if res is None:
+                        raise RuntimeError('the forked runner gave no answer')
+                    if res.get('rid') == rid:
+                        res = res['answer']
+                        break
+                    # (an answer to an abandoned request: skip it)
+            except BaseException:
+                # (a time-out of the caller, a broken pipe) the answer may still arrive later: start over
+                try:
+                    cls.proc.kill()
+                except Exception:  # noqa
+                    pass
+                cls.proc = None
+                raise
         if isinstance(res, dict) and 'baseline_error' in res:
             raise RuntimeError('forked runner: %s %s' % (res['baseline_error'], res.get('msg')))
         return res
@@ -2234,7 +2260,9 @@ def _pool():
     if _POOL[0] is None:
         import atexit
         import multiprocessing
-        ctx = multiprocessing.get_context('forkserver')
+        mainf = getattr(sys.modules.get('__main__'), '__file__', None)
+        # (a fork server re-imports the main module in its workers: only possible when that is a real file)
+        ctx = multiprocessing.get_context('forkserver' if mainf and os.path.exists(mainf) else 'fork')
         nproc = max(1, min(12, (os.cpu_count() or 2) - 2))
         _POOL[0] = ctx.Pool(nproc)
         atexit.register(_POOL[0].terminate)
@@ -2266,3 +2294,52 @@ def run_batch(case, base):
     if bad:
         BATCH_FAIL[json.dumps(case, sort_keys=True)] = dict(base, start=bad[0][0], switches=bad[0][1], reuse=False)
     return dict(kind='batch', ran=ran, steps=steps, failures=bad[:3])
+
+
+# ---------------------------------------------------------------------------
+# wall-clock trouble is not a verdict
+# ---------------------------------------------------------------------------
+
+COMPLAINTS = {}         # case key -> the first complaint the oracle made about it (kept for the replay file)
+
+
+def inconclusive(obs):
+    """an outcome that only says that some wall-clock limit was hit (check.py's per-case alarm, a baton that was not
+    handed over in time, the forked runner not answering) or that the plumbing broke — nothing about the property"""
+    if not isinstance(obs, dict):
+        return True
+    if obs.get('hang'):
+        return True
+    if 'escaped' in obs and obs['escaped'] in ('RuntimeError', 'Empty', 'BrokenPipeError', 'OSError', 'JSONDecodeError',
+                                               'CaseTimeout', 'Hang'):
+        return True
+    return False
+
+
+def judge(case, obs, run_impl, oracle_body):
+    """oracle wrapper used by C08 / C10: an inconclusive outcome is retried once, right here (no per-case alarm is
+    armed while oracles run), with every wall-clock limit multiplied by 6; only if that is inconclusive again is it
+    reported (as a hang that reproduces).  The first complaint about a case is remembered for its replay file."""
+    if inconclusive(obs):
+        old = TIMEOUT_SCALE[0]
+        TIMEOUT_SCALE[0] = 6
+        try:
+            try:
+                obs2 = run_impl(case)
+            except BaseException as e:  # noqa
+                obs2 = {'escaped': type(e).__name__, 'msg': str(e)[:200]}
+        finally:
+            TIMEOUT_SCALE[0] = old
+        if inconclusive(obs2):
+            msg = 'hang / harness failure that reproduces on a retry with generous limits: first %s, then %s' % (
+                {k: obs.get(k) for k in ('hang', 'escaped', 'msg') if isinstance(obs, dict) and k in obs},
+                {k: obs2.get(k) for k in ('hang', 'escaped', 'msg') if isinstance(obs2, dict) and k in obs2})
+        else:
+            sys.stderr.write('note: a case hit a wall-clock limit (%s) and was retried with generous limits\n'
+                             % ({k: obs.get(k) for k in ('hang', 'escaped') if isinstance(obs, dict) and k in obs},))
+            msg = oracle_body(case, obs2)
+    else:
+        msg = oracle_body(case, obs)
+    if msg:
+        COMPLAINTS.setdefault(json.dumps(case, sort_keys=True), msg)
+    return msg
